@@ -4,19 +4,19 @@ set -e
 cd "$(dirname "$0")"
 export CARGO_NET_OFFLINE=true
 for t in translators/*.py; do python3 "$t"; done
-(cd lean && lake build KotoVerif Drivers $(python3 - <<'PY'
-import json
-c=json.load(open('../props.json'))
-print(' '.join(sorted({p['driver_exe'] for p in c['properties'].values() if p.get('driver_exe')} | {p['props_module'] for p in c['properties'].values() if p.get('props_module')})))
+(cd lean && lake build $(python3 - <<'PY'
+import json,glob
+ps=[json.load(open(f)) for f in sorted(glob.glob('../props/C*.json'))]
+print(' '.join(sorted({p['driver_exe'] for p in ps if p.get('driver_exe')} | {p['props_module'] for p in ps if p.get('props_module')})))
 PY
 ))
 [ -f harness/Cargo.lock ] || cp /repo/Cargo.lock harness/Cargo.lock
 (cd harness && RUSTFLAGS="--cfg koto_verif" cargo build --offline --bins)
-if grep -q '"arc_build": true' props.json; then
+if grep -qs '"arc_build": true' props/C*.json; then
   (cd harness && CARGO_TARGET_DIR=target-arc RUSTFLAGS="--cfg koto_verif" cargo build --offline --no-default-features --features arc $(python3 - <<'PY'
-import json
-c=json.load(open('props.json'))
-print(' '.join('--bin '+p['harness_bin'] for p in c['properties'].values() if p.get('arc_build')))
+import json,glob
+ps=[json.load(open(f)) for f in sorted(glob.glob('props/C*.json'))]
+print(' '.join('--bin '+p['harness_bin'] for p in ps if p.get('arc_build')))
 PY
 ))
 fi
